@@ -10,8 +10,11 @@ CONFIG = {
     ],
     "modelled_config": "types.config() as the regenerated list Gen.Big5.configReads + configutil.SetStringConfig (ini value of prefix.lower(KEY) if set, else the default expression); viper's ini parsing itself is exercised, not modelled (cfg ops run the real viper + types.InitConfig in a child process)",
     "modelled": ["types.config (table-path reads)", "types.Big5ToUtf8", "types.Utf8ToBig5", "types.initToBig5", "types.initToUtf8", "types.initB2U", "types.initU2B",
-                 "types.initBig5 (both \"already loaded\" guards, error returns: state machine over the two maps)", "types.InitConfig/postConfig (order: config, time location, initBig5)"],
-    "assumptions": ["table files are pure ASCII (checked on every run: `wf` op)",
+                 "types.initBig5 (both \"already loaded\" guards, error returns: state machine over the two maps)", "types.InitConfig/postConfig (order: config, time location, initBig5)",
+                 "initgin.InitAllConfig (order of the packages' InitConfig calls, regenerated) with ptttype.setBBSName -> BBSNAME_BIG5",
+                 "the loader's unconditional lines[1:] against the regenerated first line of each table file"],
+    "assumptions": ["start ops: the start-up program is compiled inside the repository's module with go build -overlay (needs the go toolchain and the repository's module cache at run time)",
+                    "table files are pure ASCII (checked on every run: `wf` op)",
                     "file I/O is a function path -> content-or-error; rows inserted before a panic inside the row loop are not kept by the model (no generated history parses a panicking file)",
                     "loader histories are generated with at most one readable file per direction (the oracle's 'file it was loaded from' is then unambiguous)"],
 }
